@@ -1,79 +1,161 @@
+// C03 harness: wire integrity of onet's network layer.
+//
+// Streams of messages / raw frames / garbage are put on the wire by the real
+// TCPConn.Send (or written raw), cut into generated segments, and received by
+// the real TCPConn.Receive (level conn), the real Router.handleConn on a
+// scripted net.Conn (level router) or a real listening Router behind a
+// re-chunking loopback TCP proxy (level tcp). network.Unmarshal is fed valid,
+// mutated and arbitrary buffers (decode), and LocalRouter pairs exercise the
+// in-memory transport (local). Observations go to Coq as Corr.C03 cases.
+//
+// All implementation code runs in a child process (same binary, argument
+// "c03child"): a panic in a router goroutine kills the child, not the run, and
+// is reported as the observation of the case that was executing.
 package main
 
 import (
+	"bufio"
+	"encoding/json"
 	"fmt"
+	"io"
 	"math/rand"
+	"os"
+	"os/exec"
+	"strings"
 
-	"go.dedis.ch/kyber/v3"
-	"go.dedis.ch/kyber/v3/pairing/bn256"
-	"go.dedis.ch/kyber/v3/suites"
-	"go.dedis.ch/kyber/v3/util/random"
-	"go.dedis.ch/onet/v3/network"
+	"go.dedis.ch/onet/v3/log"
+
+	"verifharness/lib"
 )
 
-type Inner struct {
-	A    int64
-	B    []byte
-	S    string
-	F    float64
-	U    uint64
-	I32  int32
-	Flag bool
-	I    int
+type caseOut struct {
+	Coq        string      `json:"coq"`
+	Class      string      `json:"class"`
+	Obs        interface{} `json:"obs"`
+	Nontrivial bool        `json:"nontrivial"`
+	Key        string      `json:"key"`
+	Discard    bool        `json:"discard"`
 }
-type Nested struct {
-	Head  Inner
-	Opt   *Inner
-	List  []Inner
-	Nums  []int64
-	Unums []uint32
-	Names []string
-	Blobs [][]byte
-	Deep  *Nested
+
+func childMain() {
+	log.OutputToBuf()
+	registerTypes()
+	in := bufio.NewReaderSize(os.Stdin, 1<<20)
+	// answers go to fd 3: the libraries under test print to stdout now and then
+	out := bufio.NewWriter(os.NewFile(3, "answers"))
+	for {
+		line, err := in.ReadBytes('\n')
+		if len(line) > 0 {
+			c := runInput(json.RawMessage(line))
+			b, _ := json.Marshal(caseOut{c.Coq, c.Class, c.Obs, c.Nontrivial, c.Key, c.Discard})
+			out.Write(b)
+			out.WriteByte('\n')
+			out.Flush()
+		}
+		if err != nil {
+			return
+		}
+	}
 }
-type Crypto struct {
-	P   kyber.Point
-	S   kyber.Scalar
-	Ps  []kyber.Point
-	Ss  []kyber.Scalar
+
+type child struct {
+	cmd    *exec.Cmd
+	stdin  io.WriteCloser
+	stdout *bufio.Reader
+	stderr *tailBuf
 }
-type Empty struct{}
-type Blob struct{ Data []byte }
+
+type tailBuf struct{ b []byte }
+
+func (t *tailBuf) Write(p []byte) (int, error) {
+	t.b = append(t.b, p...)
+	if len(t.b) > 8192 {
+		t.b = t.b[len(t.b)-8192:]
+	}
+	return len(p), nil
+}
+
+var theChild *child
+
+func startChild() *child {
+	cmd := exec.Command(os.Args[0], "c03child")
+	stdin, _ := cmd.StdinPipe()
+	pr, pw, err := os.Pipe()
+	if err != nil {
+		panic(err)
+	}
+	cmd.ExtraFiles = []*os.File{pw}
+	tb := &tailBuf{}
+	cmd.Stderr = tb
+	if err := cmd.Start(); err != nil {
+		panic(err)
+	}
+	pw.Close()
+	return &child{cmd, stdin, bufio.NewReaderSize(pr, 1<<20), tb}
+}
+
+func run(raw json.RawMessage) lib.Case {
+	if theChild == nil {
+		theChild = startChild()
+	}
+	c := theChild
+	line := append(append([]byte{}, raw...), '\n')
+	_, werr := c.stdin.Write(line)
+	var resp []byte
+	var rerr error
+	if werr == nil {
+		resp, rerr = c.stdout.ReadBytes('\n')
+	}
+	if werr != nil || rerr != nil {
+		// the implementation killed the process: that IS the observation
+		c.stdin.Close()
+		c.cmd.Wait()
+		theChild = nil
+		var in Input
+		json.Unmarshal(raw, &in)
+		msg := string(c.stderr.b)
+		if i := strings.Index(msg, "panic:"); i >= 0 {
+			msg = msg[i:]
+		}
+		if len(msg) > 1500 {
+			msg = msg[:1500]
+		}
+		lvl := in.Level
+		if lvl == "" {
+			lvl = in.Kind
+		}
+		return lib.Case{Coq: "CDecode [] 0 DOPanic true", Class: lvl + "-" + in.Tag + "-process-died",
+			Obs: map[string]interface{}{"crash": "the process running the implementation died", "stderr": msg}, Nontrivial: true}
+	}
+	var co caseOut
+	if err := json.Unmarshal(resp, &co); err != nil {
+		panic(fmt.Sprintf("bad child answer: %v: %s", err, resp))
+	}
+	return lib.Case{Coq: co.Coq, Class: co.Class, Obs: co.Obs, Nontrivial: co.Nontrivial, Key: co.Key, Discard: co.Discard}
+}
 
 func main() {
-	ed := suites.MustFind("Ed25519")
-	for _, m := range []interface{}{&Inner{}, &Nested{}, &Crypto{}, &Empty{}, &Blob{}} {
-		network.RegisterMessage(m)
+	if len(os.Args) > 1 && os.Args[1] == "c03child" {
+		childMain()
+		return
 	}
-	rng := rand.New(rand.NewSource(1))
-	st := random.New(rng)
-	bn := bn256.NewSuite()
-	vals := []interface{}{
-		&Inner{A: -5, B: []byte{1, 2}, S: "hi", F: 1.5, U: 1<<64 - 1, I32: -7, Flag: true, I: -1 << 62},
-		&Inner{},
-		&Nested{Head: Inner{A: 1}, Opt: &Inner{S: "x"}, List: []Inner{{A: 2}, {}}, Nums: []int64{-1, 1 << 62}, Unums: []uint32{0, 1 << 31}, Names: []string{"a", ""}, Blobs: [][]byte{{1}, {}}, Deep: &Nested{Nums: []int64{3}}},
-		&Nested{},
-		&Crypto{P: ed.Point().Pick(st), S: ed.Scalar().Pick(st), Ps: []kyber.Point{ed.Point().Pick(st), bn.G1().Point().Pick(st)}, Ss: []kyber.Scalar{bn.G1().Scalar().Pick(st)}},
-		&Crypto{P: bn.G1().Point().Pick(st), S: bn.G2().Scalar().Pick(st)},
-		&Crypto{P: bn.G2().Point().Pick(st), S: ed.Scalar().Pick(st)},
-		&Crypto{P: bn.GT().Point().Pick(st), S: ed.Scalar().Pick(st)},
-		&Crypto{},
-		&Empty{},
-		&Blob{},
-		&Blob{Data: make([]byte, 3)},
-	}
-	for _, v := range vals {
-		b, err := network.Marshal(v)
-		if err != nil {
-			fmt.Printf("%T marshal err %v\n", v, err)
-			continue
-		}
-		id, w, err := network.Unmarshal(b, ed)
-		if err != nil {
-			fmt.Printf("%T len %d unmarshal err %v\n", v, len(b), err)
-			continue
-		}
-		b2, err := network.Marshal(w)
-		fmt.Printf("%T len %d id %x same=%v err=%v\n   %+v\n   %+v\n", v, len(b), id[:4], string(b) == string(b2), err, v, w)
+	registerTypes() // the generator measures wire lengths with Marshal
+	log.OutputToBuf()
+	lib.Main(lib.Harness{
+		Prop:   "C03",
+		Import: "Onet.Corr.C03",
+		Rule: "streams (valid messages of generated shapes incl. Ed25519/bn256 points and scalars, near-limit and over-limit bodies, " +
+			"refused frames, garbage) x segmentations (all segmentations of 9-10 byte streams, every single cut, every k bytes, random cuts) " +
+			"x levels (TCPConn.Receive loop, Router.handleConn on a scripted net.Conn, two Routers over loopback TCP behind a re-chunking proxy); " +
+			"decoder fuzz (valid, mutated, arbitrary buffers into network.Unmarshal); LocalRouter pairs. " +
+			"non-trivial = more than a bare header on the wire / a non-empty buffer; distinct = distinct (level, wire bytes, segmentation) or buffer",
+		Shard:    90,
+		Generate: func(rng *rand.Rand, tier string) []interface{} { return generate(rng, tier) },
+		Run:      run,
+		Corpus:   corpus,
+	})
+	if theChild != nil {
+		theChild.stdin.Close()
+		theChild.cmd.Wait()
 	}
 }
